@@ -149,12 +149,14 @@ PROPS["C14"] = dict(
         R("digest", "plain", 16, 1101, ["mode=len", "splits_upto=1100"], partition=True),
         R("digest", "asan", 4, 2, ["mode=long", "maxlen=1500000"]),
         R("digest", "asan", 8, 6, ["mode=sip"]),
+        R("digest", "plain", 1, 1, ["mode=huge"], partition=True),
     ],
     thorough=[
         R("digest", "asan", 16, 1101, ["mode=len", "splits_upto=1100"], partition=True, timeout=7200),
         R("digest", "plain", 16, 1101, ["mode=len", "splits_upto=1100"], partition=True),
         R("digest", "asan", 16, 12, ["mode=long", "maxlen=12000000"], timeout=7200),
         R("digest", "asan", 16, 300, ["mode=sip"], timeout=7200),
+        R("digest", "plain", 6, 6, ["mode=huge"], partition=True, timeout=7200),
     ],
     post=[_c14_post],
     rule="len: one case per message length 0..1100 (random, all-00 and all-ff content) through all four "
